@@ -68,6 +68,32 @@ def worker(sh):
             op2 = rng.choice(['qualify', 'ndqualify'])
             k2, pat2 = sc.keyop(op2, 0, l, ent2, False, parent=kid, parent_pattern=pat)
             keys.append((k2, pat2, op2))
+    # l = 3: every key pattern x every single-slot difference (exhaustive over the pattern/slot/kind space, values sampled)
+    if l == 3 and sh.index < 4:
+        import itertools
+        pats = list(itertools.product('FHX', repeat=3))
+        for pi, pt in enumerate(pats):
+            if pi % 4 != sh.index:
+                continue
+            ent = [(i, (rng.choice(NZ) if c == 'X' else None)) for i, c in enumerate(pt) if c != 'F']
+            op = 'keygen' if pi % 2 == 0 else 'ndkeygen'
+            kid, pat = sc.keyop(op, 0, 3, ent, False)
+            base = dict(fixed_list(pat))
+            sc.dec(kid, 0, sorted(base.items()), 1, 0, 'positive/exact')
+            for i in range(3):
+                d = dict(base)
+                if i in d:
+                    d[i] = (d[i] + rng.choice(NZ)) % (1 << 256)
+                    if differ(3, tuple(pat), sorted(d.items())):
+                        sc.dec(kid, 0, sorted(d.items()), 0, 0, 'list:change/exhaustive-l3')
+                    d2 = dict(base)
+                    if d2[i] % R:
+                        del d2[i]
+                        sc.dec(kid, 0, sorted(d2.items()), 0, 0, 'list:drop/exhaustive-l3')
+                else:
+                    d[i] = rng.choice(NZ)
+                    sc.dec(kid, 0, sorted(d.items()), 0, 0, 'list:add@%s/exhaustive-l3' % ('free' if pat[i] == 'F' else 'hidden'))
+        sh.count('exhaustive_l3_patterns', len([1 for pi in range(len(pats)) if pi % 4 == sh.index]))
     for kid, pat, op in keys:
         fl = fixed_list(pat)
         # positive controls: same pattern, equal-mod-r representatives, zero-valued extra slots
@@ -157,7 +183,7 @@ def run(ctx):
                 'called with a list that gives a hidden slot a non-zero value and the resulting key must not open the ciphertext with that slot set. class = reason')
     ctx.extra['configs'] = cfgs
     ctx.assumptions = ['library pairing as instrument inside decrypt itself; message equality via Fq12::equal', 'coincidental equality of random GT elements has probability ~2^-255']
-    need = ['decrypt|positive/exact', 'decrypt|positive/equal-mod-r', 'decrypt|list:change', 'decrypt|list:drop', 'decrypt|list:add@free', 'decrypt|list:add@hidden',
+    need = ['decrypt|list:change/exhaustive-l3', 'decrypt|list:drop/exhaustive-l3', 'decrypt|list:add@free/exhaustive-l3', 'decrypt|list:add@hidden/exhaustive-l3', 'decrypt|positive/exact', 'decrypt|positive/equal-mod-r', 'decrypt|list:change', 'decrypt|list:drop', 'decrypt|list:add@free', 'decrypt|list:add@hidden',
             'decrypt|hidden-fill:qualify', 'decrypt|hidden-fill:ndqualify', 'decrypt|hidden-fill:adjust', 'decrypt|ct-component:1', 'decrypt|ct-component:3', 'decrypt|ct-component:6']
     for r in need:
         if not any(k.startswith(r) for k in ctx.classes):
